@@ -373,10 +373,11 @@ let () = register "pipeline" (fun args ->
                  | None -> "FAIL progressive |TREE " ^ tree_s
                  | Some nodes ->
                    "OK |TREE " ^ tree_s ^
-                   String.concat "" (List.map (fun ((((a, b), c), raw), ops) ->
-                       Printf.sprintf "|NODE %d %d %d raw=%s ops=%s" (int_of_nat a) (int_of_nat b) (int_of_nat c)
+                   String.concat "" (List.map (fun (((((a, b), c), raw), ops), meets) ->
+                       Printf.sprintf "|NODE %d %d %d raw=%s ops=%s meets=%s" (int_of_nat a) (int_of_nat b) (int_of_nat c)
                          (String.concat "," (List.map (fun z -> string_of_int (int_of_z z)) raw))
-                         (String.concat "," (List.map (fun z -> string_of_int (int_of_z z)) ops))) nodes))))))
+                         (String.concat "," (List.map (fun z -> string_of_int (int_of_z z)) ops))
+                         (String.concat ";" (List.map (fun ((mx, tr), mt) -> Printf.sprintf "%d:%d:%d" (int_of_z mt) (int_of_z tr) (int_of_n (bits_of_f32 (Obj.magic mx)))) meets))) nodes))))))
   | _ -> "BADARGS")
 
 let main () =
